@@ -86,6 +86,7 @@ func (ih *Inhibitor) run(ctx context.Context) {
 	defer it.Close()
 
 	for _, a := range initalAlerts {
+		verifPoint("initial.alert", a)
 		ih.processAlert(ctx, a)
 	}
 
